@@ -129,6 +129,46 @@ func c19r3(rc *core.RC) {
 	})
 	rc.Check(guard, "encoder.getFilteredCodeSetIfNeeded/needs-context-option", fd.Pos(), "without ContextOption the unfiltered program is returned before the context is consulted")
 	_ = fmt.Sprint
+	// the query flag is set on every path that returns a filtered program (cache hit or fresh):
+	// the interpreters and the marshaler helpers hand sub-queries on only when it is set
+	cf := core.BuildCFG(fd.Body, info)
+	var flagNode ast.Node
+	ast.Inspect(fd.Body, func(m ast.Node) bool {
+		if as, ok := m.(*ast.AssignStmt); ok && as.Tok == token.OR_ASSIGN && len(as.Rhs) == 1 {
+			if o := core.ObjOf(info, as.Rhs[0]); o != nil && o.Name() == "FieldQueryOption" {
+				flagNode = as
+			}
+		}
+		return true
+	})
+	var base types.Object
+	for _, f := range fd.Type.Params.List {
+		for _, nm := range f.Names {
+			if o := info.Defs[nm]; o != nil && strings.HasSuffix(o.Type().String(), "OpcodeSet") {
+				base = o
+			}
+		}
+	}
+	if flagNode == nil {
+		rc.Bad("encoder.getFilteredCodeSetIfNeeded/query-flag", fd.Pos(), "FieldQueryOption is never set: sub-queries are not handed to interface values and context-aware marshalers")
+	} else {
+		fb, fi := cf.BlockOf(flagNode)
+		nret, ok := 0, true
+		for _, r := range cf.Returns() {
+			if len(r.Results) != 2 || core.IsNilIdent(info, r.Results[0]) || core.ObjOf(info, r.Results[0]) == base {
+				continue
+			}
+			nret++
+			rb, ri := cf.BlockOf(r)
+			if fb == nil || rb == nil || !((fb == rb && fi < ri) || (fb != rb && cf.Dominates(fb, rb))) {
+				ok = false
+				rc.Bad("encoder.getFilteredCodeSetIfNeeded/query-flag", r.Pos(), "the filtered program `%s` is returned on a path that does not pass `ctx.Option.Flag |= FieldQueryOption`: served from the query cache, the program runs without the flag, and interface members and MarshalJSON(ctx) fields below it are projected with the root query", core.Src(p.Fset, r.Results[0]))
+			}
+		}
+		if ok {
+			rc.Check(nret >= 2, "encoder.getFilteredCodeSetIfNeeded/query-flag", flagNode.Pos(), "the flag assignment dominates all %d returns of a filtered program", nret)
+		}
+	}
 }
 
 // ---- C19.R4 nested consumers of the query use the opcode's own sub-query ----
@@ -428,4 +468,70 @@ func c19r6(rc *core.RC) {
 		})
 	}
 	rc.Check(carries == 2, "encoder.(*StructFieldCode).headerOpcodes~fieldOpcodes/carry-FieldQuery", a.Pos(), "both copy the value opcode's FieldQuery to the field opcode (%d of 2)", carries)
+}
+
+// ---- C19.R7 promoted fields are selected by the enclosing query ----
+
+// The members of an embedded struct are written as members of the outer object. StructCode.Filter
+// therefore has to filter an anonymous field's value with its own query parameter (the enclosing
+// query), not look the embedded struct up by name only.
+func c19r7(rc *core.RC) {
+	p := rc.P
+	fd := p.Func("encoder", "StructCode.Filter")
+	key := "encoder.(*StructCode).Filter/promoted-fields"
+	if fd == nil {
+		rc.Unknown(key, token.NoPos, "not found")
+		return
+	}
+	rc.Touch("encoder.(*StructCode).Filter")
+	info := p.Info(fd)
+	// the query parameter and variables that only ever hold it
+	var qparam types.Object
+	for _, f := range fd.Type.Params.List {
+		for _, nm := range f.Names {
+			qparam = info.Defs[nm]
+		}
+	}
+	holds := map[types.Object]bool{qparam: true}
+	for round := 0; round < 3; round++ {
+		ast.Inspect(fd.Body, func(m ast.Node) bool {
+			as, ok := m.(*ast.AssignStmt)
+			if !ok {
+				return true
+			}
+			for i, r := range as.Rhs {
+				if i < len(as.Lhs) && holds[core.ObjOf(info, r)] {
+					if lo := core.ObjOf(info, as.Lhs[i]); lo != nil {
+						holds[lo] = true
+					}
+				}
+			}
+			return true
+		})
+	}
+	// an if statement testing isAnonymous whose body makes the loop's query variable hold the enclosing query
+	found := false
+	ast.Inspect(fd.Body, func(m ast.Node) bool {
+		ifs, ok := m.(*ast.IfStmt)
+		if !ok || !strings.Contains(core.Src(p.Fset, ifs.Cond), "isAnonymous") {
+			return true
+		}
+		ast.Inspect(ifs.Body, func(k ast.Node) bool {
+			switch x := k.(type) {
+			case *ast.AssignStmt:
+				for _, r := range x.Rhs {
+					if holds[core.ObjOf(info, r)] {
+						found = true
+					}
+				}
+			case *ast.CallExpr:
+				if sel, ok := x.Fun.(*ast.SelectorExpr); ok && sel.Sel.Name == "Filter" && len(x.Args) == 1 && holds[core.ObjOf(info, x.Args[0])] {
+					found = true
+				}
+			}
+			return true
+		})
+		return true
+	})
+	rc.Check(found, key, fd.Pos(), "an anonymous (embedded) field is filtered with the enclosing query: its members are promoted into the outer object and are selected by the outer query's names")
 }
